@@ -8,6 +8,7 @@ Ties        : T  dtype-transfer expressions regenerated from /repo by lib/py2coq
               T  translator self-check: every reachable kernel of cpu_ops / conv_tools is run for real (through the public
                  ops, the module attributes temporarily wrapped by recorders) and its observed result dtype / kind must be
                  a member of `deval` of the generated expression on the abstracted arguments (compared inside Coq)
+              K  stateful layers: real BatchNorm histories (k training forwards then eval) vs the generated state machine
               K  every catalogued public call (ops with tensor / Python-scalar operands, layers train+eval, losses x
                  reductions, Sequential) x {float32, float64} x upstream gradient of either dtype (and the default one):
                  observed result dtype == the single dtype predicted by the generated definitions; observed .grad
